@@ -677,7 +677,19 @@ func (ex *Exec) Verify() {
 				ex.bindingError(c, err)
 				continue
 			}
-			st.Assume(g)
+			// a definitional axiom is only relevant to queries that mention the function it defines:
+			// attach it to that symbol (included on demand) instead of the path condition
+			attached := false
+			for _, t := range tokenRe.FindAllString(g.S, -1) {
+				if _, ok := ex.ctx.specs.SMTFuns[t]; ok {
+					ex.D.lines = append(ex.D.lines, declLine{t, "(assert " + g.S + ")"})
+					attached = true
+					break
+				}
+			}
+			if !attached {
+				st.Assume(g)
+			}
 			ex.assumed["definitional axiom in "+fc.Key+": "+c.Src] = true
 		}
 		ex.entry.PC = append([]Term(nil), st.PC...)
